@@ -122,9 +122,12 @@ def run(case):
     Mx = 1.5 * M if hand else M
     blobs = gen.make_blobs(rng, shape, n=5, sigma=(1.3, 1.9), margin=Mx + 4.8)
     tmpl = gen.render_box(shape, blobs)
-    rot_arg, rots = rotation_set(rng, p["rotset"] if kind not in ("notemplate",) else "none")
+    # template-free alignment of a grouped loader with a searched rotation set: in each group one molecule is given
+    # with a wrong orientation (one of the searched rotations away from the truth), which the search has to undo
+    grouped_nt = kind == "notemplate" and gen.rng_for(p["iseed"], "c01-gnt").random() < 0.4
+    rot_arg, rots = rotation_set(rng, p["rotset"] if kind not in ("notemplate",) else ("list3" if grouped_nt else "none"))
     Model = model_class(p["model"])
-    nm = p["nmol"] if kind != "notemplate" else 6
+    nm = p["nmol"] if kind != "notemplate" else (10 if grouped_nt else 6)
     half = float(np.linalg.norm(shape)) / 2 + Mx + 4
     ms_nm = M * s
     kw = {} if rot_arg is None else {"rotations": rot_arg}
@@ -141,6 +144,13 @@ def run(case):
             m = rng.uniform(-1, 1, size=3)
         ms.append(m)
     ms = np.array(ms)
+    if grouped_nt:
+        k_id = int(np.argmin([r.magnitude() for r in rots]))
+        ks = [k_id] * nm
+        for g_ in (0, 1):
+            j_ = 2 * int(rng.integers(0, nm // 2)) + g_
+            ks[j_] = int(rng.choice([k for k in range(len(rots)) if k != k_id]))
+        case.count("grouped_template_free_with_rotations")
     if kind == "mock":
         truth_R = [Rotation.identity()] * nm
     R_in = [truth_R[j] * rots[ks[j]].inv() for j in range(nm)]
@@ -259,6 +269,9 @@ def run(case):
             out = loader.align([tmpl, tmpl_b], max_shifts=ms_nm, alignment_model=Model, **kw).molecules
         else:            # a 4-D stack given to align()
             out = loader.align(np.stack([tmpl, tmpl_b]), max_shifts=(ms_nm,) * 3, alignment_model=Model, **kw).molecules
+    elif grouped_nt:
+        grp = loader.groupby("g").align_no_template(max_shifts=1.0 * s, alignment_model=Model, output_shape=shape, **kw)
+        out = Molecules.concat([ld.molecules for _, ld in grp])
     else:
         out = loader.align_no_template(max_shifts=1.0 * s, alignment_model=Model, output_shape=shape).molecules
     if not case.check(len(out) == nm and "uid" in out.features.columns, "alignment lost molecules or features",
@@ -275,9 +288,14 @@ def run(case):
         # consensus: the residual in the particle frame must be common to all molecules
         res = np.array([truth_R[j].apply(out.pos[i].astype(float) - p_true[j], inverse=True) / s
                         for i, j in enumerate(uid)])
-        spread = float(np.abs(res - res.mean(0)).max())
-        before = -ms  # residual of the input molecules in the particle frame (no rotation perturbation)
-        spread0 = float(np.abs(before - before.mean(0)).max())
+        before = -np.array([rots[ks[j]].inv().apply(ms[j]) for j in uid])  # residual of the input molecules, particle frame
+        if grouped_nt:   # every group has its own average, hence its own consensus
+            gsel = [np.array([j % 2 == g_ for j in uid]) for g_ in (0, 1)]
+            spread = max(float(np.abs(res[m_] - res[m_].mean(0)).max()) for m_ in gsel)
+            spread0 = min(float(np.abs(before[m_] - before[m_].mean(0)).max()) for m_ in gsel)
+        else:
+            spread = float(np.abs(res - res.mean(0)).max())
+            spread0 = float(np.abs(before - before.mean(0)).max())
         case.maxobs("max_consensus_spread_px", spread)
         case.maxobs("max_consensus_ratio", spread / max(spread0, 1e-9))
         case.check(spread <= TOLERANCES["consensus_px"] and spread <= 0.6 * spread0 + 0.05,
